@@ -406,7 +406,7 @@ class Universe:
                 self.log.append(line('op', e=e, h=hid, n='exit', x=code_id(op[1])))
                 raise SystemExit(op[1])
             elif o == 'kbint':
-                self.log.append(line('op', e=e, h=hid, n='kbint'))
+                self.log.append(line('op', e=e, h=hid, n='kbint', x=-1))
                 raise KeyboardInterrupt()
             elif o == 'addh':
                 self.api_addh(op[1], inside=(e, hid))
@@ -417,12 +417,12 @@ class Universe:
             elif o == 'unreg':
                 self.api_unreg(op[1], inside=(e, hid))
             elif o == 'stopmgr':
-                self.log.append(line('op', e=e, h=hid, n='stopmgr', x=code_id(op[1] if len(op) > 1 else None)))
+                self.log.append(line('op', e=e, h=hid, n='stopmgr', c=self._cid(comp), x=code_id(op[1] if len(op) > 1 else None)))
                 comp.stop(op[1] if len(op) > 1 else None)
             elif o == 'stop2':
                 # a second thread calls stop() while this handler is executing (scripted rendezvous)
                 import threading
-                self.log.append(line('op', e=e, h=hid, n='stop2', x=code_id(op[1] if len(op) > 1 else None)))
+                self.log.append(line('op', e=e, h=hid, n='stop2', c=self._cid(comp.root), x=code_id(op[1] if len(op) > 1 else None)))
                 t = threading.Thread(target=self._thread_stop, args=(comp.root, op[1] if len(op) > 1 else None))
                 t.start()
                 t.join()
@@ -678,7 +678,12 @@ class Universe:
                 break
             r = busy[0]          # always the lowest busy root (the model's QTick does the same)
             self.log.append(line('api', n='tick', c=r))
-            self.comps[r].tick()
+            try:
+                self.comps[r].tick()
+            except Exception as exc:
+                self.escaped = repr(exc)
+                self.log.append(line('escape', n=type(exc).__name__, x=1))
+                break
         tasks = sum(len(self.comps[r]._tasks) for r in self.roots())
         queued = sum(len(self.comps[r]) for r in self.roots())
         temp = 0
@@ -759,6 +764,11 @@ class Universe:
                 except (ScriptError, SystemExit, KeyboardInterrupt) as exc:
                     self.escaped = repr(exc)
                     self.log.append(line('escape', n=type(exc).__name__))
+                except Exception as exc:
+                    # an exception of circuits' own code left flush() / tick() / run(): it is an
+                    # observation about the code under test (judged by the monitor), not a harness failure
+                    self.escaped = repr(exc)
+                    self.log.append(line('escape', n=type(exc).__name__, x=1))
             self.quiesce()
         finally:
             self.uninstall()
